@@ -648,5 +648,5 @@ func gen(t *rapid.T) Case {
 }
 
 func TestIntrospection(t *testing.T) {
-	vfrun.Run(t, vfrun.Prop[Case]{Property: "C16", Name: "TestIntrospection", Gen: gen, Check: check}, vfrun.N(1200, 40000))
+	vfrun.Run(t, vfrun.Prop[Case]{Property: "C16", Name: "TestIntrospection", Gen: gen, Check: check}, vfrun.N(1200, 200000))
 }
